@@ -167,3 +167,31 @@ Theorem C09_nested_splices_assembly : forall w T r before after name args fi fi'
   | _, _ => False
   end.
 Proof. exact macro_code_nested_assembly. Qed.
+
+(** All three kinds of arguments in one application (evaluated, deferred, code blocks): the union
+    of the side conditions of the deferred and of the code-block theorems; examples both ways in
+    Proofs/MacroMixed.v (a deferred argument that names a parameter is excluded by [def_cond]:
+    the application evaluates it in the caller's scope, the naive twin sees the parameter). *)
+From A816 Require Import Proofs.MacroMixed.
+Theorem C09_mixed_arguments_assembly : forall w T r before after name args fi fi' fi'' md mbs body2,
+  let K := MacroCode.code_names (cb_of mbs) in
+  let C := MacroCode.code_of (cb_of mbs) in
+  cg_ok r ->
+  (forall s' ns', code_gen_fuel w cg_depth {| cg_r := r; cg_macros := [] |} before = Ok (s', ns') ->
+     dict_get (cg_macros s') name = Some md /\
+     eval_macro_args w (cg_r s') (md_params md) args = Ok (mbound mbs) /\
+     codes_clean K T (cg_r s') /\ tinv K T (cg_macros s')) ->
+  mlits_closed w mbs ->
+  subl C (md_body md) body2 -> kcleanl K T body2 = true ->
+  (forall sF ns, code_gen_fuel w cg_depth {| cg_r := r; cg_macros := [] |}
+                   (before ++ [ACompound (mstmts mbs fi'' ++ body2) fi'] ++ after) = Ok (sF, ns) ->
+     MacroCode.nodes_kfree K ns = true) ->
+  no_capture w cg_depth {| cg_r := r; cg_macros := [] |} before (AMacroApply name args fi) after (pb_of mbs) ->
+  match assemble_ast w r (before ++ [AMacroApply name args fi] ++ after),
+        assemble_ast w r (before ++ [ACompound (mstmts mbs fi'' ++ body2) fi'] ++ after) with
+  | Ok o1, Ok o2 => o_blocks o1 = o_blocks o2 /\ o_labels o1 = o_labels o2
+  | Err j, Err k => j = k
+  | OutOfFuel, OutOfFuel => True
+  | _, _ => False
+  end.
+Proof. exact macro_mixed_assembly. Qed.
